@@ -59,7 +59,8 @@ def impl_case(case):
     if (len(desc['tracks']) + desc['tpb']) % 3 == 0:
         # the documented helper functions hand out values that belong to the caller
         import mido as _m
-        from ..persist import abuse_vlq_helpers
+        from ..persist import abuse_merge_results, abuse_vlq_helpers
+        abuse_merge_results(_m)
         abuse_vlq_helpers(_m, [e[0] for tr in desc['tracks'] for e in tr if isinstance(e[0], int) and 0 <= e[0] < 2 ** 28][:40])
     if (len(desc['tracks']) + desc['tpb']) % 4 == 0:
         # an earlier save in the same process that was refused part-way through a track (a real-time message after storable
